@@ -8,7 +8,7 @@ ROOT = os.path.dirname(os.path.dirname(os.path.abspath(__file__)))
 
 # id -> (technique, level text, level note, design ref)
 CHECKS = {
-    "C01": ("rapid-generated frames + exhaustive length grid; round trip and byte comparison with an independent table-driven wire model",
+    "C01": ("rapid-generated frames + exhaustive length grid; round trip and byte comparison with an independent table-driven wire model; histories: reused and kept-by-value decode targets, held encoder outputs, edited decoded frames",
             "Exploration: generated spec-valid frames of all 8 MTypes are encoded (binary, base64), compared byte-for-byte with the wire model, decoded again (join-accepts through encrypt/decrypt) and compared; the complete FOptsLen x FPort x FRMPayload-length grid of the four data MTypes is enumerated in both tiers. Field contents are sampled.",
             "Trusted: harness/internal/ref wire model (frames, MAC-command table) written from LoRaWAN 1.0.3/1.1; structural conversions in harness/internal/gen.",
             "DESIGN.md §4 C01"),
@@ -72,7 +72,7 @@ CHECKS = {
             "Exploration, exhaustive for all in-range values of the single-byte payloads and the sub-byte bit-fields of every multi-byte payload; wide fields, sequences, keys and addresses are sampled. Oracle: no panic, encoded length == Size() == specification length, decode gives the same command / sequence; McRootKey/McKEKey/McAppSKey/McNetSKey equal the TS005 AES derivations. Known finding K5 (DevVersionReq rejects a following command) is excluded by class with a witness.",
             "Trusted: the width tables in harness/c18/specs_test.go, ref multicast derivations over crypto/aes, the library decoder for the one unexported field nextFirmwareVersion.",
             "DESIGN.md §4 C18"),
-    "C08": ("rapid-generated byte strings (uniform, type-sized, structure-aware mutations of valid frames) + committed corpus replay + native go fuzzing (thorough); decode -> re-encode -> decode canonicality oracle",
+    "C08": ("rapid-generated byte strings (uniform, type-sized, structure-aware mutations of valid frames) + committed corpus replay + native go fuzzing (thorough); base64 text door differential; decode -> re-encode -> decode canonicality oracle",
             "Exploration: for every generated input with the reserved MHDR bits zero that the frame decoder accepts, MarshalBinary must succeed and return exactly the input and decoding that again must give a deeply equal frame; nothing is asserted about rejected inputs. The thorough tier adds a bounded coverage-guided campaign on the same oracle (not seed-reproducible; a crasher is saved as the replay file). Known finding K1 is excluded by a predicate on the input bytes and counted.",
             "Trusted: nothing beyond the Go runtime (the oracle is a round trip through the library itself); the wire model is only used to build the valid frames that are mutated.",
             "DESIGN.md §4 C08"),
